@@ -274,6 +274,7 @@ func RunC07(c *core.Ctx) {
 		if !c.Quick() || si == 0 {
 			expiryProbe(c, spec)
 		}
+		reRegistrationProbe(c, spec)
 		for _, alt := range redirectAlterations {
 			p := core.Params{"key": spec.Name, "alt": alt}
 			o := c.Do("dev.redirect", p, "device-side:"+alt)
@@ -340,6 +341,63 @@ func expiryProbe(c *core.Ctx, spec env.KeySpec) {
 		probe("just-after-expiry", false)
 		time.Sleep(1100 * time.Millisecond)
 		probe("one-second-after-expiry", false)
+	}
+}
+
+// reRegistrationProbe: the owner registers again for the same GUID (other address, other TTL; after the voucher moved on
+// to a new owner): TO1 must release the LATEST blob, also after a restart of the rendezvous service.
+func reRegistrationProbe(c *core.Ctx, spec env.KeySpec) {
+	e, err := srvEnv(spec)
+	if err != nil {
+		return
+	}
+	ctx, cancel := context.WithTimeout(context.Background(), time.Minute)
+	defer cancel()
+	dev, err := e.NewDevice(ctx, protocol.X509KeyEnc)
+	if err != nil {
+		c.Note("re-registration probe: %v", err)
+		return
+	}
+	addr := func(host string, port uint16) []protocol.RvTO2Addr {
+		return []protocol.RvTO2Addr{{DNSAddress: strp(host), Port: port, TransportProtocol: protocol.HTTPSTransport}}
+	}
+	regs := []struct {
+		host string
+		port uint16
+		ttl  uint32
+	}{{"owner.test", 8043, 3600}, {"owner2.test", 9043, 7200}, {"owner2.test", 9043, 60}, {"owner.test", 8043, 3600}, {"third.test", 1, 86400}}
+	for i, rg := range regs {
+		ttl := rg.ttl
+		e.AcceptTTL = func(uint32) (uint32, error) { return ttl, nil }
+		_, err := e.TO0(ctx, dev.Cred.GUID, addr(rg.host, rg.port))
+		e.AcceptTTL = nil
+		if err != nil {
+			c.Fail("re-registration-refused", fmt.Sprintf("registration #%d for the same GUID: %v", i+1, err), "srv.history", core.Params{"key": spec.Name}, core.Obs{})
+			return
+		}
+		for _, restart := range []bool{false, true} {
+			if restart {
+				if i != 1 && i != len(regs)-1 {
+					continue
+				}
+				if err := e.Restart(); err != nil {
+					c.Note("re-registration probe restart: %v", err)
+					return
+				}
+			}
+			to1d, err := e.TO1(ctx, dev)
+			c.Rep.Evaluations++
+			got := "error"
+			if err == nil && to1d != nil && to1d.Payload != nil && len(to1d.Payload.Val.RV) == 1 && to1d.Payload.Val.RV[0].DNSAddress != nil {
+				got = fmt.Sprintf("%s:%d", *to1d.Payload.Val.RV[0].DNSAddress, to1d.Payload.Val.RV[0].Port)
+			}
+			want := fmt.Sprintf("%s:%d", rg.host, rg.port)
+			c.Count("re_registration", fmt.Sprintf("#%d restart=%v latest=%v", i+1, restart, got == want))
+			if got != want {
+				c.Fail("stale-redirect-served", fmt.Sprintf("after registration #%d (%s) TO1 released %s (restart=%v, err=%v)", i+1, want, got, restart, err), "srv.history",
+					core.Params{"key": spec.Name, "registration": fmt.Sprint(i + 1)}, core.Obs{})
+			}
+		}
 	}
 }
 
